@@ -29,7 +29,7 @@ RULE = (
     "non-trivial = solved AND (optimum > 0 or scaling/ignore present or k >= 2 with >= 2 distinct returned routes); distinct = case hash."
 )
 ASSUMPTIONS = ["weights non-negative, not all zero; float data dyadic"]
-BUDGET = {"quick": {"examples": 1300, "deadline_s": 100}, "thorough": {"examples": 20000, "deadline_s": 900}}
+BUDGET = {"quick": {"examples": 1000, "deadline_s": 90}, "thorough": {"examples": 20000, "deadline_s": 900}}
 CLASSES = ["kLeastAbsErrors", "kLeastAbsErrorsCycles"]
 
 
